@@ -124,6 +124,14 @@ func checkC12(env *kernel.Env) {
 	for i, n := 0, T.Range(4, 12); i < n; i++ {
 		both(fmt.Sprintf("INSERT INTO t VALUES (%d, %d, %s)", i, T.Draw(10), c12Lit(c12Strings[T.Draw(len(c12Strings))]).lit))
 	}
+	withTriggers := T.Bool(1, 2)
+	if withTriggers {
+		// the statements' side effects count too: triggers of t write an audit table
+		both("CREATE TABLE au (what VARCHAR(8), n INT)")
+		both("CREATE TRIGGER ti AFTER INSERT ON t FOR EACH ROW INSERT INTO au VALUES ('ins', NEW.id)")
+		both("CREATE TRIGGER tu AFTER UPDATE ON t FOR EACH ROW INSERT INTO au VALUES ('upd', NEW.id)")
+		both("CREATE TRIGGER td AFTER DELETE ON t FOR EACH ROW INSERT INTO au VALUES ('del', OLD.id)")
+	}
 	prepared := map[string]bool{} // SQL-level handles on s1
 	render := func(r *Res) string {
 		if r.Err != nil {
@@ -227,6 +235,12 @@ func checkC12(env *kernel.Env) {
 			t1, t2 := render(admin1.Exec("SELECT * FROM t")), render(admin2.Exec("SELECT * FROM t"))
 			if t1 != t2 {
 				env.Fail("prepared-equals-literal", "effects-differ:"+path+":"+tm.name, "after %s via %s the table is [%s]; after the literal form it is [%s]", tm.sql, path, t1, t2)
+			}
+			if withTriggers && !env.Failed() {
+				a1, a2 := render(admin1.Exec("SELECT what, n, COUNT(*) FROM au GROUP BY what, n ORDER BY what, n")), render(admin2.Exec("SELECT what, n, COUNT(*) FROM au GROUP BY what, n ORDER BY what, n"))
+				if a1 != a2 {
+					env.Fail("prepared-equals-literal", "trigger-effects-differ:"+path+":"+tm.name, "after %s via %s the triggers of t have written [%s]; after the literal form [%s]", tm.sql, path, a1, a2)
+				}
 			}
 		}
 		env.Nontrivial()
